@@ -1,6 +1,7 @@
 package main
 
 import (
+	"fmt"
 	"sort"
 	"strings"
 )
@@ -73,10 +74,11 @@ const (
 	KNibble
 	KChain
 	KLongTail
+	KDecimal
 	KKindCnt
 )
 
-var kindNames = []string{"tiny", "randbytes", "sharedprefix", "fanout", "regular", "longruns", "nibble", "chain", "longtail"}
+var kindNames = []string{"tiny", "randbytes", "sharedprefix", "fanout", "regular", "longruns", "nibble", "chain", "longtail", "decimal"}
 
 func genKeySet(r *RNG, kind int, scale int) []string {
 	ks := []string{}
@@ -198,6 +200,15 @@ func genKeySet(r *RNG, kind int, scale int) []string {
 		for i := 0; i < m; i++ {
 			ks = append(ks, strings.Repeat(c, r.Intn(5))+randBytes(r, 1+r.Intn(2)))
 		}
+	case KDecimal:
+		// regular decimal strings: many equal label bitmaps (short-node tables) and, over
+		// the range of sizes, every residue of the label-bitmap length modulo 64
+		n := 20 + r.Intn(380*scale)
+		step := []int{1, 3, 5, 7, 11}[r.Intn(5)]
+		width := 3 + r.Intn(4)
+		for i := 0; i < n; i++ {
+			ks = append(ks, fmt.Sprintf("%0*d", width, i*step))
+		}
 	case KLongTail:
 		// short shared prefixes followed by long distinct tails (leaf tails of 60..300 bytes)
 		np := 1 + r.Intn(3)
@@ -223,16 +234,33 @@ const (
 	VRuns
 	VAllEqual
 	VLongRuns
+	VCraftLen
 	VKindCnt
 )
 
-var vkindNames = []string{"nil", "distinct", "runs", "allequal", "longruns"}
+var vkindNames = []string{"nil", "distinct", "runs", "allequal", "longruns", "craftlen"}
 
 // genValueIDs returns, for n keys, a value class id per key (adjacent equal
 // ids = a run); nil for "no values".
 func genValueIDs(r *RNG, n int, vkind int) []uint64 {
 	if vkind == VNil {
 		return nil
+	}
+	if vkind == VCraftLen {
+		// variable-width encoders derive the width from id % 6: unequal widths whose
+		// LAST element has the average width (1,3,1,3,...,2), and all-but-one equal
+		ids := make([]uint64, n)
+		for i := range ids {
+			w := uint64(1 + 2*(i%2))
+			if i == n-1 {
+				w = 2
+			}
+			if r.Intn(2) == 0 && n > 2 && i == n/2 {
+				w = uint64(r.Intn(6))
+			}
+			ids[i] = (r.U64()/6)*6 + w
+		}
+		return ids
 	}
 	ids := make([]uint64, n)
 	cur := r.U64()
